@@ -191,6 +191,45 @@ func normalise(mod []*packages.Package, fset *token.FileSet, known map[string]bo
 				delete(cands, obj)
 			}
 		}
+		// candidates whose body is one return of an expression without calls (other than
+		// conversions, len, cap): calling them has no effect, so they do not restrict hoisting
+		pureFns := map[*types.Func]bool{}
+		for obj, cd := range cands {
+			if len(cd.decl.Body.List) != 1 {
+				continue
+			}
+			rs, ok := cd.decl.Body.List[0].(*ast.ReturnStmt)
+			if !ok {
+				continue
+			}
+			pure := true
+			for _, e := range rs.Results {
+				ast.Inspect(e, func(n ast.Node) bool {
+					switch y := n.(type) {
+					case *ast.CallExpr:
+						if tv, ok := info.Types[y.Fun]; ok && tv.IsType() {
+							return true
+						}
+						if id, ok := y.Fun.(*ast.Ident); ok {
+							if b, ok := info.Uses[id].(*types.Builtin); ok && (b.Name() == "len" || b.Name() == "cap") {
+								return true
+							}
+						}
+						pure = false
+					case *ast.FuncLit:
+						pure = false
+					case *ast.UnaryExpr:
+						if y.Op == token.ARROW {
+							pure = false
+						}
+					}
+					return pure
+				})
+			}
+			if pure {
+				pureFns[obj] = true
+			}
+		}
 		// uses: every use must be the callee of a direct call in a handled statement position
 		type useCtx struct {
 			file *ast.File
@@ -282,6 +321,10 @@ func normalise(mod []*packages.Package, fset *token.FileSet, known map[string]bo
 					}
 				case *ast.IncDecStmt, *ast.SendStmt:
 					kind = "hoist"
+				case *ast.DeclStmt:
+					if gd, ok := st.Decl.(*ast.GenDecl); ok && gd.Tok == token.VAR {
+						kind = "hoist"
+					}
 				}
 				if kind == "" {
 					abort[fn] = true
@@ -296,7 +339,7 @@ func normalise(mod []*packages.Package, fset *token.FileSet, known map[string]bo
 				}
 				if kind == "hoist" {
 					// single result, and everything else the statement evaluates is free of calls
-					if fn.Type().(*types.Signature).Results().Len() != 1 || !restIsPure(info, stmt, call) {
+					if fn.Type().(*types.Signature).Results().Len() != 1 || !restIsPure(info, stmt, call, pureFns) {
 						abort[fn] = true
 						return true
 					}
@@ -718,11 +761,12 @@ func normalise(mod []*packages.Package, fset *token.FileSet, known map[string]bo
 					if cd.lit {
 						text = strings.Replace(text, strings.Join(resNames, ", ")+" := func()", strings.Join(resNames, ", ")+" = func()", 1)
 					}
-					prefix := "{ " + resDecl.String() + text + "}; "
+					// the result variable is declared in front of the statement (unique name, no
+					// enclosing block: the statement may itself declare names that must stay visible)
+					prefix := resDecl.String() + text + "}; "
 					siteEdits[s.file] = append(siteEdits[s.file],
 						textEdit{off(s.stmt.Pos()), off(s.stmt.Pos()), prefix},
-						textEdit{off(s.call.Pos()), off(s.call.End()), resNames[0]},
-						textEdit{off(s.stmt.End()), off(s.stmt.End()), " }"})
+						textEdit{off(s.call.Pos()), off(s.call.End()), resNames[0]})
 					continue
 				}
 				if !ok {
@@ -852,7 +896,7 @@ func isPtrTo(t, elem types.Type) bool {
 // (not those of nested blocks) contain no calls other than conversions and the
 // builtins len / cap, no receives and no function literals - so evaluating
 // `call` before the statement does not reorder effects.
-func restIsPure(info *types.Info, st ast.Stmt, call *ast.CallExpr) bool {
+func restIsPure(info *types.Info, st ast.Stmt, call *ast.CallExpr, pureFns map[*types.Func]bool) bool {
 	var exprs []ast.Expr
 	switch x := st.(type) {
 	case *ast.ExprStmt:
@@ -870,6 +914,16 @@ func restIsPure(info *types.Info, st ast.Stmt, call *ast.CallExpr) bool {
 		exprs = []ast.Expr{x.X}
 	case *ast.SendStmt:
 		exprs = []ast.Expr{x.Chan, x.Value}
+	case *ast.DeclStmt:
+		gd, ok := x.Decl.(*ast.GenDecl)
+		if !ok {
+			return false
+		}
+		for _, sp := range gd.Specs {
+			if vs, ok := sp.(*ast.ValueSpec); ok {
+				exprs = append(exprs, vs.Values...)
+			}
+		}
 	default:
 		return false
 	}
@@ -893,6 +947,9 @@ func restIsPure(info *types.Info, st ast.Stmt, call *ast.CallExpr) bool {
 				if y.Pos() <= call.Pos() && call.End() <= y.End() {
 					// a call that has `call` among its operands runs after it either way
 					return true
+				}
+				if fn := calledFunc(info, y); fn != nil && pureFns[fn] {
+					return true // an effect-free helper (itself about to be inlined)
 				}
 				if y.Pos() >= call.End() {
 					// calls happen in lexical order: this one runs after `call` either way
@@ -1193,4 +1250,17 @@ func planThreading(info *types.Info, s *inlineSite, cd *inlineCand, nres int) *t
 		return true
 	})
 	return plan
+}
+
+// calledFunc: the function object a call expression names directly.
+func calledFunc(info *types.Info, call *ast.CallExpr) *types.Func {
+	switch f := call.Fun.(type) {
+	case *ast.Ident:
+		fn, _ := info.Uses[f].(*types.Func)
+		return fn
+	case *ast.SelectorExpr:
+		fn, _ := info.Uses[f.Sel].(*types.Func)
+		return fn
+	}
+	return nil
 }
